@@ -247,6 +247,13 @@ def corpus():
         ("UNK", 0, b""), ("UNK", 2, b"\x82\x01\x00"), ("UNK", U32 - 1, bytes(range(256))), ("UNK", 24, b"\xff"),
         ("UNK", 3, b"\x00" * 65535), ("UNK", 3, b"\xff" * 65536),
     ]
+    # unknown records whose opaque content happens to BE a complete status-report (or record) encoding: still opaque, still Unknown
+    for code in (0, 2, 7, 255):
+        for inner in (recs[0], recs[1], recs[2], recs[4]):
+            body = ref_record(inner)
+            recs.append(("UNK", code, body))            # the whole record encoding [1, [...]]
+            if body[:2] == b"\x82\x01":
+                recs.append(("UNK", code, body[2:]))    # just the status-report array
     for r in recs:
         out += _rec_lines(r)
     # outside the normal form / Mismatched: agreement only
